@@ -354,6 +354,49 @@ func stopMachine(sys *vsys.System, m *exec.VerifC14sMachine) {
 	time.Sleep(20 * time.Millisecond)
 }
 
+// firstUseBody: several tasks reach a cluster for the first time at once (what the
+// first tasks of a session do); the executor must create ONE manager per cluster —
+// the manager is what enforces the session's parallelism and machine limits, so two
+// managers for one cluster double them.
+func firstUseBody() {
+	sys := vsys.New(2)
+	sys.MaxMachines = 1
+	vsched.Cleanup(sys.Stop)
+	sess := exec.Start(exec.Bigmachine(sys), exec.Parallelism(2))
+	const callers = 3
+	got := make([]interface{}, callers+1)
+	var wg vsched.WaitGroup
+	for i := 0; i <= callers; i++ {
+		i := i
+		wg.Add(1)
+		vsched.Go(fmt.Sprintf("task%d", i), func() {
+			defer wg.Done()
+			cluster := 0
+			if i == callers {
+				cluster = 1 // an exclusive task's own cluster, first used at the same time
+			}
+			m := exec.VerifC14sSessionManager(sess, cluster)
+			vsched.Monitor(monKey, func() { got[i] = m })
+		})
+	}
+	wg.Wait()
+	vsched.Monitor(monKey, func() {
+		for i := 1; i < callers; i++ {
+			if got[i] != got[0] {
+				vsched.Fail("two managers for one cluster: concurrent first uses of cluster 0 were given different machine managers (each enforces the parallelism limit on its own)")
+			}
+		}
+		if got[callers] == got[0] {
+			vsched.Fail("clusters 0 and 1 share a manager")
+		}
+		pub := exec.VerifC14sSessionManagers(sess)
+		if len(pub) != 2 || pub[0] != got[0] || pub[1] != got[callers] {
+			vsched.Fail("two managers for one cluster: the executor's published managers differ from the ones handed to the tasks")
+		}
+		outcomeStr = fmt.Sprintf("managers=%d", len(pub))
+	})
+}
+
 var cfgs = []scenCfg{
 	{name: "2x2/three-1proc", procsPer: 2, machines: 2, reqs: []int{1, 1, 1}, prios: []int{0, 0, 0}},
 	{name: "2x2/whole+two-1proc", procsPer: 2, machines: 2, reqs: []int{0, 1, 1}, prios: []int{0, 0, 0}},
@@ -368,7 +411,10 @@ var cfgs = []scenCfg{
 	{name: "2x2/held+whole+two-1proc-shelved", procsPer: 2, machines: 2, reqs: []int{0, 1, 1}, prios: []int{0, 1, 1}, holds: 2, releaseAfter: 1},
 }
 
-var flagLayer = flag.String("layer", "C14", "property that owns this layer")
+var (
+	flagLayer    = flag.String("layer", "C14", "property that owns this layer")
+	flagRacePass = flag.Int("racepass", 0, "internal (race flavour): run the free-running manager pass with N rounds per requester")
+)
 
 func main() {
 	vsys.Quiet()
@@ -381,7 +427,13 @@ func main() {
 		mcs = append(mcs, &mc.Scenario{Name: c.name, Body: body(c), Outcome: func() string { return outcomeStr }, Grace: 3 * time.Second,
 			SigGroup: "b/" + c.name, Class: classify})
 	}
+	mcs = append(mcs, &mc.Scenario{Name: "exec/manager-first-use", Body: firstUseBody, Outcome: func() string { return outcomeStr }, Grace: 3 * time.Second,
+		SigGroup: "b/exec/manager-first-use", Class: classify})
 	mc.ChildMain(mcs)
+	if *flagRacePass > 0 {
+		racePass(*flagRacePass)
+		return
+	}
 	r := ev.Start(*flagLayer, "model_checking")
 	bound, budget := 1, 50*time.Second
 	if r.Thorough() {
@@ -391,8 +443,12 @@ func main() {
 	for _, c := range cfgs {
 		plans = append(plans, mc.Plan{Scenario: c.name, Delay: true, Bound: bound, Budget: budget})
 	}
+	plans = append(plans, mc.Plan{Scenario: "exec/manager-first-use", Delay: true, Bound: bound + 1, Budget: budget})
 	sum := mc.RunPlans(r, mcs, plans)
 	cov := sum.Coverage("real machineManager.Do on verifsystem machines under the vsched scheduler; requesters offer/cancel/receive/Done(ok|remote|transport error), optional machine stop; all schedules with <= bound deviations x all environment choices; machine boot confined to a non-explored prelude; manager interactions observed in manager order via channel watches")
+	if race := runRacePass(r); race != nil {
+		cov["race_pass"] = race
+	}
 	out := map[string]interface{}{"coverage": cov, "violations": r.Violations(), "machinery": sum.Machinery, "violation_list": r.Pending()}
 	b, _ := json.Marshal(out)
 	fmt.Printf("LAYER %s\n", b)
@@ -407,6 +463,8 @@ func classify(e string) string {
 	switch {
 	case strings.HasPrefix(l, "deadlock"):
 		return "request-never-granted-or-deadlock"
+	case strings.Contains(l, "two managers for one cluster"):
+		return "two-managers-for-one-cluster"
 	case strings.Contains(l, "oversubscribed"):
 		return "oversubscribed"
 	case strings.Contains(l, "probation"):
